@@ -8,6 +8,7 @@ from __future__ import annotations
 import io
 import json
 import numbers
+import os
 from concurrent.futures import ThreadPoolExecutor
 from fractions import Fraction
 
@@ -193,3 +194,39 @@ def validate(ctx, module, cfg, recs, label, nproc=4, extra_files=None, timeout=3
       skips.append((part[v[1] - 1], v[2]))
   ctx.traces += len(recs)
   return fails, skips
+
+
+# ---------------------------------------------------------------------------------------------------------------
+# known findings of this property that are still in the fragment findings_<pid>.json
+# ---------------------------------------------------------------------------------------------------------------
+
+def apply_fragment(ctx):
+  """core.finish matches violations against /verif/known_findings.json only.  Until findings_<pid>.json has been merged
+  into that file, the `known` entries of the fragment are applied here with the same matcher (core._match): a matched
+  case is reported as KNOWN-FINDING and counted, not failed.  Entries already present in known_findings.json are left to
+  core.finish."""
+  from . import core
+  path = os.path.join(core.VERIF, "findings_%s.json" % ctx.pid)
+  if not os.path.exists(path):
+    return
+  with open(path) as fh:
+    entries = [e for e in json.load(fh).get("findings", []) if e.get("status") == "known"]
+  merged = {e.get("id") for e in core.load_findings()}
+  entries = [e for e in entries if e.get("id") not in merged]
+  if not entries:
+    return
+  keep = []
+  hits = {}
+  for v in ctx.violations:
+    probe = dict(v, pid=ctx.pid)
+    hit = next((e for e in entries if core._match(e, probe)), None)      # pylint: disable=protected-access
+    if hit is None:
+      keep.append(v)
+    else:
+      hits[hit["id"]] = hits.get(hit["id"], 0) + 1
+  ctx.violations = keep
+  for e in entries:
+    n = hits.get(e["id"], 0)
+    if n:
+      print(f"KNOWN-FINDING: property={ctx.pid} {e['id']}: {e['what']} ({n} case(s) this run; from findings_{ctx.pid}.json)")
+      ctx.count("known_finding:" + e["id"], n)
